@@ -8,4 +8,6 @@ MCNoiseAll == {"hello", "desc", "echo", "pktin"}
 MCErrAll == {"unsup", "type", "code", "xid"}
 MCNoiseFew == {"echo"}
 MCErrFew == {"unsup", "xid"}
+MCSegOwn == {"own"}
+MCSegAll == {"own", "more", "split"}
 ====
